@@ -269,7 +269,7 @@ def gen_edge(rng, n, tier):
                 # "for any base point": a base high above the ellipsoid (a summit, an airliner, a space station, a GNSS satellite) and a point on the far side of the Earth, near a pole
                 base = [base[0], base[1], rng.choice([8848.0, 10000.0, 4.0e5, 2.02e7])]
                 g = [((base[0] + 180.0 + rng.uniform(-20, 20)) + 180.0) % 360.0 - 180.0, rng.choice([89.85, -89.85, 89.5, rng.uniform(-89.9, 89.9)]), rng.choice([0.0, rng.uniform(-1000, 10000)])]
-            out.append({'kind': 'geo', 'g': g, 'base': base})
+            out.append({'kind': 'geo', 'g': g, 'base': base, 'reuse': rng.random() < 0.25})
         elif k < 0.65:
             lon = rng.uniform(-5, 9.5); lat = rng.uniform(41.5, 51); h = rng.choice([0.0, rng.uniform(-100, 4800)])
             out.append({'kind': 'lambert', 'g': [lon, lat, h]})
@@ -300,6 +300,12 @@ def run_edge(case):
     from tracklib.core import GeoCoords, ENUCoords, ECEFCoords, Obs, ObsTime, Track
     if case['kind'] == 'geo':
         g = GeoCoords(*case['g']); base = GeoCoords(*case['base'])
+        if case.get('reuse'):
+            # the same two objects were used before at another height (a 2-D position converted, then draped on a terrain model; a base whose height was corrected):
+            # a conversion is a function of the current longitude, latitude and height
+            g = GeoCoords(case['g'][0], case['g'][1], case['g'][2] - 1215.0); base = GeoCoords(case['base'][0], case['base'][1], 35.0)
+            g.toECEFCoords(); g.toENUCoords(base); base.toECEFCoords(); g.distanceTo(base)
+            g.setZ(case['g'][2]); base.setZ(case['base'][2])
         P = g.toECEFCoords(); b = P.toGeoCoords()
         p = g.toENUCoords(base); b2 = p.toGeoCoords(base)
         P3 = g.toENUCoords(base).toECEFCoords(base); b3 = P3.toGeoCoords()           # local -> Earth-centred with the same (geographic) base -> geographic
